@@ -280,6 +280,15 @@ func (e *Engine) LoadContractFile(file, pkgPath string) error {
 			}
 			e.Ghosts = append(e.Ghosts, &GhostSpec{Name: ws[0], Sort: ws[1], Pkg: pkgPath})
 			cur = nil
+		case "writers":
+			// writers <Type>.<field> (Cxx) <func> <func> ...: the field is
+			// assigned only inside the named functions (a frame obligation)
+			ws := strings.Fields(rest)
+			if len(ws) < 3 || !strings.Contains(ws[0], ".") || !strings.HasPrefix(ws[1], "(") {
+				return fail(fmt.Errorf("writers <Type>.<field> (Cxx) <func>..."))
+			}
+			e.Writers = append(e.Writers, &WritersSpec{Pkg: pkgPath, Field: ws[0], Prop: strings.Trim(ws[1], "()"), Funcs: ws[2:]})
+			cur = nil
 		case "global":
 			ws := strings.Fields(rest)
 			if len(ws) < 2 {
